@@ -379,10 +379,38 @@ def install(I):
     I.native_modules["sys"] = NativeModule("sys", {
         "exit": Native("sys.exit", sys_exit), "argv": ["pyvc"], "path": [],
         "float_info": Opaque("sys.float_info"), "maxsize": 2 ** 63 - 1})
-    I.native_modules["os"] = NativeModule("os", {})
+    class PathVal:
+        """pathlib.Path / os.path values: opaque, composable with '/', never opened."""
+        def __init__(self, s):
+            self.s = s
+        def __repr__(self):
+            return f"Path({self.s})"
+
+    I.PathVal = PathVal
+
+    def mk_path(ctx, *parts):
+        return PathVal("/".join(str(getattr(p, "s", p)) if not isinstance(p, Opaque) else "<repo_root>" for p in parts))
+
+    I.native_modules["os"] = NativeModule("os", {
+        "path": NativeModule("os.path", {
+            "exists": Native("os.path.exists", lambda ctx, p: True),
+            "join": Native("os.path.join", mk_path),
+        }),
+        "mkdir": Native("os.mkdir", lambda ctx, p: None),
+        "makedirs": Native("os.makedirs", lambda ctx, p, **k: None),
+    })
+    I.native_modules["os.path"] = I.native_modules["os"].ns["path"]
+    I.native_modules["pathlib"] = NativeModule("pathlib", {"Path": Native("pathlib.Path", mk_path)})
+
+    def read_csv(ctx, path, *a, **k):
+        hook = getattr(I, "table_hook", None)
+        if hook is None:
+            raise Unsupported("pandas.read_csv: file contents are not modelled (no table supplied by the contract)")
+        return hook(path)
+
+    I.native_modules["pandas"] = NativeModule("pandas", {"read_csv": Native("pandas.read_csv", read_csv)})
     I.native_modules["warnings"] = NativeModule("warnings", {}, dropped=True)
     I.native_modules["datetime"] = NativeModule("datetime", {})
-    I.native_modules["pathlib"] = NativeModule("pathlib", {})
     I.native_modules["itertools"] = NativeModule("itertools", {
         "product": Native("itertools.product", lambda ctx, *its: [tuple(t) for t in __import__("itertools").product(*[I.iterate(x) for x in its])]),
     })
